@@ -125,6 +125,12 @@ add("C16", "exploration",
     "Shown for the sampled lengths on this platform and optimisation level; frame sizes and tail-call elimination are compiler artefacts (e.g. the derived PartialEq survives because it is compiled to a loop).",
     "DESIGN.md section 4/C16", engine="proptest-harness")
 
+add("C08", "exploration",
+    "exhaustive enumeration of all 1536 parser option sets over a token corpus in every syntactic position, judged by a declarative token classifier and a non-interference (metamorphic) relation",
+    "Exploration over configurations and inputs with the configuration factor exhaustive: every (token, position) input is parsed under ALL 1536 option sets. A classifier table written from the option documentation says what each token must read as (or Error, or Unspecified); in context the enclosing list/vector/shorthand must contain exactly that element. Independently, all option sets that agree on the options an input syntactically exercises must give identical results - a relation that needs no model of the tokens at all.",
+    "Trusts the classifier table (DESIGN.md A.2); where the documentation is silent it says Unspecified and only non-interference is asserted.",
+    "DESIGN.md section 4/C08")
+
 NOT_YET = {}
 
 def main():
